@@ -7,6 +7,7 @@ import core
 import solvercorr as sc
 import solverslices
 import py2coq_plumbing
+import plumbcorr
 from props.c04 import TRUSTED as _T
 from props import c02
 
@@ -25,7 +26,9 @@ TRUSTED = _T + [
     "x[lo:hi] for 0 <= lo <= hi <= n (C11_array_slices_in_range proves the bounds are in range) reads x[lo + r]; fftshift/ifftshift(axes) roll the last two axes; "
     "fft2/ifft2 (pyFFTW through bldfm.fft_manager) are the definitional 2-D DFT over the last two axes with norm='forward' scaling the forward and "
     "norm='backward' the inverse transform by 1/(rows*cols); np.meshgrid default indexing 'xy'; X[msk] lists the selected entries in C order and "
-    "A[:, msk] = V scatters column m of V to the m-th selected entry; .real; broadcasting of an (nly, nlx) array against (nlvls, nly, nlx)",
+    "A[:, msk] = V scatters column m of V to the m-th selected entry; .real; broadcasting of an (nly, nlx) array against (nlvls, nly, nlx). "
+    "The index part (pad, shifts, slices, mask gather/scatter, meshgrid, fftfreq) is compared exactly with numpy on every run over all parities "
+    "(harness/plumbcorr.py, integer arrays, carrier Z under vm_compute); the DFT and its norm conventions by the whole-solve float correspondence",
     "harness/py2coq_plumbing.py (fail-closed `ast` data-flow translator of the plumbing statements of steady_state_transport_solver into the "
     "description language of Model/SolverArray.v; coq/Bridge/PlumbingBridge.v re-proves on every run that the generated descriptions are "
     "interpreted to exactly the pipelines of solve_array)",
@@ -89,6 +92,8 @@ def check(ctx):
         h[k] = h.get(k, 0) + 1
     ctx.cov.setdefault("histogram", {})["parity_class"] = h
     ctx.cov["exhaustive"] = bool(ctx.thorough)
+    # exact correspondence of the index semantics Model/SolverArray.v ascribes to numpy's pad / shifts / slices / mask / meshgrid / fftfreq
+    plumbcorr.run(ctx)
 
 
 def probe(S, case):
